@@ -13,6 +13,7 @@
 import Gama.Lemmas.Ls.EnvQfinal
 import Gama.Lemmas.Ls.EnvRefusalFinal
 import Gama.Lemmas.Ls.ComposeGinvUnique
+import Gama.Lemmas.LS.Example
 
 namespace Gama.LS
 open Matrix Finset
@@ -238,3 +239,80 @@ theorem envCore_cofactors (hsq : IsSqrt sq) (hO : OrdOK n o) (hU : FactUnambiguo
         QsO_belongs sq tol m n A At bt reg o hO hWinj hAt hreg ho hspan, fun h => absurd h hd⟩
 
 end Gama.Ls.Env
+
+/-! ### the 3-unknown singular example of `Lemmas/LS/Example.lean`: two computations of the
+    cofactor matrix that belongs to `S = {0,1}` (non-vacuity of `C02_same_cofactors`) -/
+
+namespace Gama.LS.Ex
+open Matrix Finset
+
+set_option linter.unnecessarySeqFocus false
+
+/-- `h hᵀ`, `h = (1,1,0)` the restriction of the kernel vector `g = (1,1,−1)` to `S` -/
+def Hb : Matrix (Fin 3) (Fin 3) ℚ := !![1, 1, 0; 1, 1, 0; 0, 0, 0]
+/-- `g hᵀ` -/
+def GH : Matrix (Fin 3) (Fin 3) ℚ := !![1, 1, 0; 1, 1, 0; -1, -1, 0]
+/-- `g gᵀ` -/
+def GG : Matrix (Fin 3) (Fin 3) ℚ := !![1, 1, -1; 1, 1, -1; -1, -1, 1]
+
+theorem Hb_eq : Hb = vecMulVec ![1, 1, 0] ![1, 1, 0] := by
+  ext i j; fin_cases i <;> fin_cases j <;> simp [Hb, vecMulVec_apply]
+theorem GH_eq : GH = vecMulVec g₀ ![1, 1, 0] := by
+  ext i j; fin_cases i <;> fin_cases j <;> simp [GH, g₀, vecMulVec_apply]
+theorem GG_eq : GG = vecMulVec g₀ g₀ := by
+  ext i j; fin_cases i <;> fin_cases j <;> simp [GG, g₀, vecMulVec_apply]
+
+/-- first computation: `T Q' Tᵀ`, `Q'` the g-inverse with `x₃` fixed, `T = I − g hᵀ/(hᵀg)` the
+    `S`-projector (`hᵀg = 2`) -/
+def Tm : Matrix (Fin 3) (Fin 3) ℚ := 1 - (1/2 : ℚ) • GH
+
+theorem TQ'T_eq : Tm * Q' * Tmᵀ = Q := by
+  ext i j
+  fin_cases i <;> fin_cases j <;>
+    simp [Tm, GH, Q, Q', Matrix.mul_apply, Fin.sum_univ_succ, transpose_apply, Matrix.one_apply] <;> norm_num
+
+/-- second computation (the textbook "bordering" formula): `(N + h hᵀ)⁻¹ − g gᵀ/(hᵀg)²` -/
+def Mb : Matrix (Fin 3) (Fin 3) ℚ := !![9/20, 1/20, -11/60; 1/20, 9/20, -19/60; -11/60, -19/60, 23/60]
+
+theorem Mb_inv : (N + Hb) * Mb = 1 := by
+  ext i j
+  fin_cases i <;> fin_cases j <;>
+    simp [N, Hb, Mb, Matrix.mul_apply, Fin.sum_univ_succ] <;> norm_num
+
+theorem Mb_eq_inv : Mb = (N + Hb)⁻¹ := (inv_eq_right_inv Mb_inv).symm
+
+theorem bordered_eq : (N + Hb)⁻¹ - (1/4 : ℚ) • GG = Q := by
+  rw [← Mb_eq_inv]
+  ext i j
+  fin_cases i <;> fin_cases j <;> simp [Mb, Q, GG] <;> norm_num
+
+theorem Q'_symm : Q'ᵀ = Q' := by
+  ext i j; fin_cases i <;> fin_cases j <;> simp [Q', transpose_apply]
+
+/-- `Q` belongs to `S = {0,1}`: rows 0 and 1 are opposite and kernel vectors have `g 0 = g 1` -/
+theorem Q_belongs : BelongsTo A S Q := by
+  intro y g hg
+  obtain ⟨h0, h1⟩ := (ker_iff g).1 hg
+  have h01 : g 1 = g 0 := by linarith
+  have e : ∑ i ∈ S, (Q *ᵥ y) i * g i = (Q *ᵥ y) 0 * g 0 + (Q *ᵥ y) 1 * g 1 := by
+    simp [S, sum_pair (show (0 : Fin 3) ≠ 1 by decide)]
+  rw [e, h01]
+  simp [Q, mulVec, dotProduct, Fin.sum_univ_succ]
+  ring
+
+/-- the other symmetric reflexive g-inverse `Q'` does NOT belong to `S` (it belongs to `S' = {2}`) -/
+theorem Q'_not_belongs : ¬ BelongsTo A S Q' := by
+  intro h
+  have := h ![1, 0, 0] g₀ g₀_ker.1
+  have e : ∑ i ∈ S, (Q' *ᵥ ![1, 0, 0]) i * g₀ i
+      = (Q' *ᵥ ![1, 0, 0]) 0 * g₀ 0 + (Q' *ᵥ ![1, 0, 0]) 1 * g₀ 1 := by
+    simp [S, sum_pair (show (0 : Fin 3) ≠ 1 by decide)]
+  rw [e] at this
+  simp [Q', g₀, mulVec, dotProduct, Fin.sum_univ_succ] at this
+  norm_num at this
+
+theorem Q'_belongs' : BelongsTo A S' Q' := by
+  intro y g _
+  simp [S', Q', mulVec, dotProduct, Fin.sum_univ_succ]
+
+end Gama.LS.Ex
